@@ -19,6 +19,8 @@
  R7 carried       : the CSV writer carries no local from one response row to the next (must-definition dataflow).
  R8 same request  : compare_reqs compares the same attribute of both requests at every comparison.
  R9 first reason  : a blocking reason already set is never overwritten by a later check.
+ R10 mode copy    : the selected mode is copied onto the request completely and identically in every copy block.
+ Rn arg roles     : a variable named like a parameter of the callee is handed to that parameter (no exchanged roles).
 """
 import ast
 
@@ -414,6 +416,23 @@ def r9_first_reason(ctx):
     ctx.need('R9.first-reason', 2)
 
 
+def r_mode_copy(ctx):
+    """R10: a mode selected by the planner is copied onto the request completely and identically in every copy block (offset,
+    penalties, baud rate, OSNR threshold, tx OSNR, bit rate, format)"""
+    from .common import mode_copy_rule
+    mode_copy_rule(ctx, 'R10.mode-copy', 'the response would report a mode the request object does not hold')
+    ctx.need('R10.mode-copy', 3)
+
+
+def rn_arg_roles(ctx):
+    """Rn: a variable named like a parameter of the callee is handed to that parameter (no exchanged roles such as
+    f(to_degree, from_degree) for def f(from_degree, to_degree)); calls to resolved package functions, canonical form"""
+    from .common import arg_roles_rule
+    from ..memo import scope_funcs
+    n = arg_roles_rule(ctx, 'Rn.arg-roles', scope_funcs(ctx.repo, 'C19'), 'a result would be built from exchanged paths or requests')
+    ctx.check('Rn.arg-roles', 'argument / parameter name scan', True, 'C19|arg-roles-scan', '', f'{n} argument(s) named like another parameter judged')
+
+
 from ..memo import rule_for as _memo_rule
 
 RULES_MEMO = ('Rm.memo', _memo_rule('C19', 'a result would report figures of another request'))
@@ -424,4 +443,4 @@ from ..presence import rule_for as _presence_rule
 RULES_PRESENCE = ('Rp.presence', _presence_rule('C19', 'a legal zero would be reported as missing'))
 
 RULES = [('R6.own-objects', r6_own_objects), ('R1.metrics', r1_metrics), ('R2.directions', r2_directions), ('R3.dispatch', r3_dispatch), ('R4.csv', r4_csv),
-         ('R5.aggregation', r5_aggregation), RULES_MEMO, RULES_PRESENCE, ('R7.carried', r7_carried), ('R8.same-request', r8_same_request), ('R9.first-reason', r9_first_reason)]
+         ('R5.aggregation', r5_aggregation), RULES_MEMO, RULES_PRESENCE, ('R7.carried', r7_carried), ('R8.same-request', r8_same_request), ('R9.first-reason', r9_first_reason), ('R10.mode-copy', r_mode_copy), ('Rn.arg-roles', rn_arg_roles)]
